@@ -175,12 +175,13 @@ def expected(table, rtype, route, auth):
     return [None]
 
 
-def direct_case(table, sig, rtype, route, position, auth, part):
+def direct_case(table, sig, rtype, route, position, auth, part, body=b'body'):
     from rsocket.payload import Payload
     ran = []
     router, handler = build(table, ran, auth != 'no-verifier', sig)
     md, nitems = metadata_for(route, position, auth)
-    payload = Payload(b'body', md)
+    payload = Payload(body, md)
+    nb = bytes(body or b'')
     loop = VLoop()
     loop.install()
     outcome = None
@@ -221,7 +222,7 @@ def direct_case(table, sig, rtype, route, position, auth, part):
     got = who[0] if len(who) == 1 else (None if not who else 'many')
     ctx = '%s/%s auth=%s pos=%s' % (rtype, route, auth, position)
     wit = {'kind': 'direct', 'table': {'type': table['type'], 'named': sorted(table['named']), 'unknown': table['unknown'], 'others': table['others']},
-           'sig': sig, 'rtype': rtype, 'route': route, 'position': position, 'auth': auth}
+           'sig': sig, 'rtype': rtype, 'route': route, 'position': position, 'auth': auth, 'body': None if body is None else body.hex()}
     part.state((table['type'], tuple(sorted(table['named'])), table['unknown'], table['others'], rtype, route, auth, got, outcome[0]))
     part.outcome((got, outcome[0]))
     if exp != [(rtype, route)]:
@@ -244,18 +245,18 @@ def direct_case(table, sig, rtype, route, position, auth, part):
         args = dict(ran[0][2])
         name = got[1]
         want_sig = sig if (rtype == table['type'] and name == 'a') else ('both' if rtype == table['type'] else 'payload')
-        want = {'none': {}, 'payload': {'payload': ('payload', (b'body', md))}, 'cm': {'composite_metadata': ('cm', nitems)},
-                'both': {'payload': ('payload', (b'body', md)), 'composite_metadata': ('cm', nitems)},
-                'typed': {'value': ('typed', b'body'), 'meta': ('cm', nitems)},
-                'cm-first': {'payload': ('payload', (b'body', md)), 'composite_metadata': ('cm', nitems)},
-                'ann-cm-first': {'request': ('payload', (b'body', md)), 'meta': ('cm', nitems)},
-                'typed-then-raw': {'value': ('typed', b'body'), 'raw': ('payload', (b'body', md))},
-                'ann-payload': {'request': ('payload', (b'body', md))},
-                'three': {'meta': ('cm', nitems), 'value': ('typed', b'body'), 'payload': ('payload', (b'body', md))}}[want_sig]
+        want = {'none': {}, 'payload': {'payload': ('payload', (nb, md))}, 'cm': {'composite_metadata': ('cm', nitems)},
+                'both': {'payload': ('payload', (nb, md)), 'composite_metadata': ('cm', nitems)},
+                'typed': {'value': ('typed', nb), 'meta': ('cm', nitems)},
+                'cm-first': {'payload': ('payload', (nb, md)), 'composite_metadata': ('cm', nitems)},
+                'ann-cm-first': {'request': ('payload', (nb, md)), 'meta': ('cm', nitems)},
+                'typed-then-raw': {'value': ('typed', nb), 'raw': ('payload', (nb, md))},
+                'ann-payload': {'request': ('payload', (nb, md))},
+                'three': {'meta': ('cm', nitems), 'value': ('typed', nb), 'payload': ('payload', (nb, md))}}[want_sig]
         if rtype == 'metadata_push':
-            want = {k: (v if v[0] != 'payload' else ('payload', (b'body', md))) for k, v in want.items()}
+            want = {k: (v if v[0] != 'payload' else ('payload', (nb, md))) for k, v in want.items()}
         if args != want:
-            part.violate('C19.parameters-as-annotated', 'C19.parameters-as-annotated | %s | %s' % (want_sig, rtype),
+            part.violate('C19.parameters-as-annotated', 'C19.parameters-as-annotated | %s | %s%s' % (want_sig, rtype, '' if body == b'body' else (' | empty-data' if body == b'' else ' | no-data')),
                          'handler %s received %s, expected %s' % (got, args, want), wit)
         # the handler's answer is what the caller gets
         if rtype == 'response' and outcome != ('value', (b'resp:' + name.encode(), b'')):
@@ -515,6 +516,11 @@ def run_unit(unit, part):
                 if position == 'after-auth' and auth == 'no-verifier' and route == 'noroute':
                     continue
                 direct_case(table, unit['sig'], rtype, route, position, auth, part)
+            if unit['sig'] in ('typed', 'typed-then-raw', 'three', 'payload'):
+                # requests without a body (empty / absent data): the annotated parameter is still what the annotation says
+                for body in (b'', None):
+                    for rtype, route, auth in itertools.product(TYPES, ('a', 'c'), ('no-verifier', 'simple-ok')):
+                        direct_case(table, unit['sig'], rtype, route, 'first', auth, part, body)
         part.extra['programs'] = part.extra.get('programs', 0) + len(tables_for(t))
         part.sample({'kind': 'direct', 'type': t, 'signature': unit['sig'], 'tables': len(tables_for(t))}, limit=1)
     else:
@@ -537,7 +543,8 @@ def replay(rec):
         return bool(p.violations)
     table = dict(w['table'], named=frozenset(w['table']['named']))
     if w['kind'] == 'direct':
-        direct_case(table, w['sig'], w['rtype'], w['route'], w['position'], w['auth'], p)
+        direct_case(table, w['sig'], w['rtype'], w['route'], w['position'], w['auth'], p,
+                    b'body' if 'body' not in w else (None if w['body'] is None else bytes.fromhex(w['body'])))
     else:
         wire_case(table, w['rtype'], w['route'], w['auth'], w['flavour'], p)
     for v in p.violations.values():
